@@ -343,8 +343,61 @@ fn sem_hex() -> Option<String> {
     one!(U1023); one!(U1024); one!(U1025); one!(U2047); one!(U2048); one!(U2049); one!(U3000); one!(U4096);
     None
 }
+// C08: the caller's function is applied once per index, in index order, and the operation does not panic on its own.
+// Element types of non-zero and of zero size on either side (pointer-range loops degenerate for zero-sized types).
+trait Mk: Sized { fn mk(i: usize) -> Self; fn id(&self) -> Option<usize>; const NAME: &'static str; }
+impl Mk for u32 { fn mk(i: usize) -> u32 { i as u32 } fn id(&self) -> Option<usize> { Some(*self as usize) } const NAME: &'static str = "u32"; }
+impl Mk for () { fn mk(_: usize) {} fn id(&self) -> Option<usize> { None } const NAME: &'static str = "()"; }
+#[derive(Clone)] struct Zd;      // zero-sized, not Copy, with a destructor
+impl Drop for Zd { fn drop(&mut self) {} }
+impl Mk for Zd { fn mk(_: usize) -> Zd { Zd } fn id(&self) -> Option<usize> { None } const NAME: &'static str = "Zd (zero-sized, Drop)"; }
+impl Mk for String { fn mk(i: usize) -> String { i.to_string() } fn id(&self) -> Option<usize> { self.parse().ok() } const NAME: &'static str = "String"; }
+fn sem_order_one<A: Mk + Clone, B: Mk, N: ArrayLength>(op: &str) -> Option<String> {
+    let n = N::USIZE;
+    let log: RefCell<Vec<Option<usize>>> = RefCell::new(Vec::new());
+    let r = catch_unwind(AssertUnwindSafe(|| {
+        match op {
+            "generate" => { let a: GenericArray<B, N> = GenericArray::generate(|i| { log.borrow_mut().push(Some(i)); B::mk(i) }); check_out::<B, N>(&a) }
+            "box_generate" => { let a = Box::<GenericArray<B, N>>::generate(|i| { log.borrow_mut().push(Some(i)); B::mk(i) }); check_out::<B, N>(&a) }
+            "map" => { let a: GenericArray<A, N> = GenericArray::generate(A::mk); let m: GenericArray<B, N> = a.map(|x| { let k = log.borrow().len(); log.borrow_mut().push(x.id()); B::mk(k) }); check_out::<B, N>(&m) }
+            "ref.map" => { let a: GenericArray<A, N> = GenericArray::generate(A::mk); let m: GenericArray<B, N> = (&a).map(|x| { let k = log.borrow().len(); log.borrow_mut().push(x.id()); B::mk(k) }); check_out::<B, N>(&m) }
+            "zip" => { let a: GenericArray<A, N> = GenericArray::generate(A::mk); let b: GenericArray<A, N> = GenericArray::generate(A::mk);
+                       let m: GenericArray<B, N> = a.zip(b, |x, y| { let k = log.borrow().len(); log.borrow_mut().push(if x.id() == y.id() { x.id() } else { Some(usize::MAX) }); B::mk(k) }); check_out::<B, N>(&m) }
+            "fold" => { let a: GenericArray<A, N> = GenericArray::generate(A::mk); let c = a.fold(0usize, |acc, x| { log.borrow_mut().push(x.id()); acc + 1 }); if c != n { Some(format!("fold returned {c} steps")) } else { None } }
+            "clone" => { let a: GenericArray<A, N> = GenericArray::generate(A::mk); let c = a.clone(); for (i, x) in c.iter().enumerate() { if let Some(v) = x.id() { if v != i { return Some(format!("clone[{i}] = {v}")); } } } None }
+            _ => None,
+        }
+    }));
+    let who = format!("{op} on N={n} with input element {} / output element {}", A::NAME, B::NAME);
+    match r {
+        Err(_) => Some(format!("{who}: panicked although the caller's function never panics")),
+        Ok(Some(m)) => Some(format!("{who}: {m}")),
+        Ok(None) => {
+            let l = log.borrow();
+            if op != "clone" && l.len() != n { return Some(format!("{who}: the caller's function was called {} times instead of {n}", l.len())); }
+            for (k, v) in l.iter().enumerate() { if let Some(v) = v { if *v != k { return Some(format!("{who}: call #{k} received element/index {v}")); } } }
+            None
+        }
+    }
+}
+fn check_out<B: Mk, N: ArrayLength>(a: &GenericArray<B, N>) -> Option<String> {
+    for (i, x) in a.iter().enumerate() { if let Some(v) = x.id() { if v != i { return Some(format!("slot {i} holds the result of call #{v}")); } } }
+    None
+}
+fn sem_order<N: ArrayLength>(op: &str) -> Option<String> {
+    sem_order_one::<u32, u32, N>(op).or_else(|| sem_order_one::<(), u32, N>(op)).or_else(|| sem_order_one::<u32, (), N>(op)).or_else(|| sem_order_one::<(), (), N>(op))
+        .or_else(|| sem_order_one::<Zd, Zd, N>(op)).or_else(|| sem_order_one::<String, String, N>(op)).or_else(|| sem_order_one::<Zd, String, N>(op)).or_else(|| sem_order_one::<String, Zd, N>(op))
+}
+
 fn semantic(sc: &str) -> Option<String> {
     if sc.starts_with("hex") { return sem_hex(); }
+    if let Some(op) = sc.strip_prefix("order.") {
+        let quiet = std::panic::take_hook();
+        std::panic::set_hook(Box::new(|_| {}));
+        let r = sem_order::<U0>(op).or_else(|| sem_order::<U1>(op)).or_else(|| sem_order::<U2>(op)).or_else(|| sem_order::<U3>(op)).or_else(|| sem_order::<U4>(op)).or_else(|| sem_order::<U5>(op));
+        std::panic::set_hook(quiet);
+        return r;
+    }
     macro_rules! all { ($f:ident) => { $f::<U0>().or_else(|| $f::<U1>()).or_else(|| $f::<U2>()).or_else(|| $f::<U3>()).or_else(|| $f::<U4>()).or_else(|| $f::<U5>()) } }
     let quiet = std::panic::take_hook();
     std::panic::set_hook(Box::new(|_| {}));
